@@ -575,3 +575,5 @@ SUBS = [
     Sub("block-sites", run_sites, strategy=sites_strategy, budget=(1500, 40000), shards=(2, 16),
         rule="each of the 9 string fields of item classes / table entries with text of width-1 (must store, next field intact), >= width or non-cp1252 (ValueError)"),
 ]
+from ..core import optimised_child_sub  # noqa: E402
+SUBS.append(optimised_child_sub("C13", ["write-exhaustive", "block-sites-pairs"]))
